@@ -21,7 +21,7 @@ func init() {
 			"R15c clock, randomness and process identity (time.Now, math/rand, crypto/rand, os.Getpid/Hostname/Getenv, uuid.New*) are called on the run path only by the function registered as the documented now custom function; random UUIDs only by the load-time hashing function. " +
 			"R15d every range over a map in run-set or load-set code has an order-insensitive body: only map updates/deletes, VM global set/delete, pure calls, or appends to a list that is sorted in the same function; an early return inside such a loop is allowed only at load time with a non-nil error. " +
 			"R15e checksum provenance: nothing reachable from RawRecord.Checksum reads Node.ID or calls a source of R15c. " +
-			"R15f process history: a node taken from the pool is blank (reset stores every field; = C12 R12b/R12d), so results do not depend on what earlier transforms left in pooled nodes.",
+			"R15f process history: a node taken from the pool is blank (reset stores every field; = C12 R12b/R12d), so results do not depend on what earlier transforms left in pooled nodes. R15g the same for pooled JavaScript VMs: globals defined for one call are wiped (deferred, before Put) on every path (= C20 R20a).",
 		NotDecided: "'checksums differ when any ingested value differs' (injectivity of the JSON rendering on runtime trees); determinism of third-party decoders and of goja; scripts that draw randomness and the now function (excluded by the statement).",
 		Trusted:    append([]string{"encoding/json sorts map keys; uuid.NewMD5 is a pure function"}, commonTrusted...),
 		Run:        runC15,
@@ -264,6 +264,9 @@ func runC15(c *core.Ctx) {
 		c12PoolRules(c, r12, c.RepoFunctions(), c12AllowedWriters(r12), "R15f", "R15f", "R15f")
 	}
 	c.Floor("R15f", 15, "reset exhaustiveness and pool discipline")
+	// ---------------- R15g pooled JavaScript VMs carry nothing from earlier transforms (= C20 R20a)
+	c20VMPool(c, "R15g")
+	c.Floor("R15g", 7, "VM pool discipline")
 }
 
 // c15Taint follows a history-dependent value forward; returns a description of the first disallowed sink.
